@@ -36,9 +36,69 @@ func versDispatch(p *Prog) (map[string]*ssa.Function, token.Pos, string) {
 		}
 	}
 	if lk == nil {
-		// the other spelling of the table: a switch over the scheme whose cases call the evaluators
+		// the other spellings of the table: a switch over the scheme whose cases call the evaluators, or
+		// whose cases select the evaluator that is called once afterwards (a phi of functions)
 		out := map[string]*ssa.Function{}
 		var pos token.Pos
+		schemeKey := func(b *ssa.BasicBlock) string {
+			key := ""
+			domEdges(b, func(cond ssa.Value, tv bool) bool {
+				bo, ok := cond.(*ssa.BinOp)
+				if !ok || !(bo.Op == token.EQL && tv || bo.Op == token.NEQ && !tv) {
+					return false
+				}
+				x, y := bo.X, bo.Y
+				if _, isC := constString(x); isC {
+					x, y = y, x
+				}
+				k, isC := constString(y)
+				if !isC {
+					return false
+				}
+				ex, isEx := x.(*ssa.Extract)
+				if !isEx || ex.Index != 0 {
+					return false
+				}
+				sc, isCall := ex.Tuple.(*ssa.Call)
+				if !isCall || sc.Call.StaticCallee() != versFunc(p, "scheme") {
+					return false
+				}
+				key = k
+				return true
+			})
+			return key
+		}
+		for _, b := range contains.Blocks {
+			for _, ins := range b.Instrs {
+				c, ok := ins.(*ssa.Call)
+				if !ok || c.Call.StaticCallee() != nil || c.Call.IsInvoke() {
+					continue
+				}
+				ph, ok := c.Call.Value.(*ssa.Phi)
+				if !ok {
+					continue
+				}
+				for i, e := range ph.Edges {
+					var f *ssa.Function
+					switch v := e.(type) {
+					case *ssa.Function:
+						f = v
+					case *ssa.MakeClosure:
+						f, _ = v.Fn.(*ssa.Function)
+					}
+					k := schemeKey(ph.Block().Preds[i])
+					if f == nil || k == "" {
+						out["?"] = nil
+						continue
+					}
+					out[k] = f
+				}
+				pos = c.Pos()
+			}
+		}
+		if len(out) > 0 {
+			return out, pos, ""
+		}
 		for _, b := range contains.Blocks {
 			for _, ins := range b.Instrs {
 				c, ok := ins.(*ssa.Call)
